@@ -15,8 +15,11 @@ func init() {
 
 // ruleG1: a package-level scratch buffer or counter written from API functions is shared by every
 // goroutine and every bitmap. Each use of a global outside an init function is classified.
+var g1own *ownEngine
+
 func ruleG1(p *Prog) *RuleResult {
 	res := newResult("G1", ruleDoc["G1"], 5)
+	g1own = p.OWN()
 	type use struct {
 		g   *ssa.Global
 		fn  *ssa.Function
@@ -161,7 +164,42 @@ func derivedWrite(v ssa.Value, depth int) string {
 				continue // io.Writer contract: Write must not modify or retain p
 			}
 			if f := x.Call.StaticCallee(); f != nil && len(f.Blocks) > 0 {
-				continue // repo callee: its own body is checked for writes through parameters by the ownership rules; a global passed down read-only is fine
+				// repo callee: consult its effect summary for the parameter(s) that receive the global's memory
+				if g1own != nil {
+					if sum := g1own.Sum(f); sum != nil {
+						for ai, a := range x.Call.Args {
+							if a == v {
+								if e := sum.mut[ai]; e != nil && (e.shallow || e.deep) {
+									return "written by " + f.String() + " (parameter " + paramName(f, ai) + ")"
+								}
+							}
+						}
+						continue
+					}
+				}
+				return "passed to " + name + " (no effect summary)"
+			}
+			if x.Call.IsInvoke() {
+				if g1own != nil {
+					wrote := ""
+					for _, g := range g1own.lookupImpls(&x.Call) {
+						if sum := g1own.Sum(g); sum != nil {
+							for ai, a := range x.Call.Args {
+								if a == v {
+									if e := sum.mut[ai+1]; e != nil && (e.shallow || e.deep) {
+										wrote = g.String()
+									}
+								}
+							}
+						}
+					}
+					if wrote != "" {
+						return "written by " + wrote
+					}
+					if len(g1own.lookupImpls(&x.Call)) > 0 {
+						continue
+					}
+				}
 			}
 			return "passed to " + name
 		}
